@@ -38,7 +38,7 @@ def run(rep):
         "(zero values also beside f's own error) deriveJoin would differ for an f that returns non-zero values with its error",
         "'exactly once' for compose and toerror means once per invocation of the returned function (building it evaluates nothing); "
         "for fmap's error form with a multi-result f it means once, before deriveFmap returns, however often the returned function is invoked",
-        "successful Traverse of an empty or nil list: only length and elements of the result are observed, not nil-ness",
+        "successful Traverse returns a non-nil slice also for a nil or empty list (what `make` gives): model and specification follow the code there, and nil-ness is observed",
         "toerror: no parameter is called success or out<i> (would collide with the helper's locals; outside the corpus)",
     ]
     fam.run_family(rep, "C16", PLUGINS, OPS)
